@@ -188,10 +188,10 @@ def build(x):
                         ''')
     nx.add_loop_spec(3, r'''
                     invariant_except_break
-                        !@{sent}, message == gm, old(self).first_match(*item, __g as int) is None,
+                        !§sent§, message == gm, old(self).first_match(*item, __g as int) is None,
                         forall|i: int| 0 <= i < old(self).senders@.len() ==> (#[trigger] self.senders@[i]).1.all() == old(self).senders@[i].1.all(),
                     invariant
-                        __g <= self.endpoints@.len(), self.same_wiring(old(self)), self.prev == prev1, old(self).inv(), @{index} == 0,
+                        __g <= self.endpoints@.len(), self.same_wiring(old(self)), self.prev == prev1, old(self).inv(), §index§ == 0,
                         se_data(gm) == Some(*item),
                     ensures
                         forall|i: int| 0 <= i < old(self).senders@.len() ==> (#[trigger] self.senders@[i]).1.all() == Self::routed(old(self), i, gm),
